@@ -13,7 +13,7 @@ CONSTANTS MaxLen, ExportLen, NUin, NUout, Profile, Diag, Part
 VARIABLES init, obj, hist
 vars == <<init, obj, hist>>
 
-ASSUME PrintT(ToJson([tag |-> "TABLES", gens |-> GenName, nums |-> GenNum, units |-> Units, eqs |-> EqNames]))
+ASSUME PrintT(ToJson([tag |-> "TABLES", gens |-> GenName, nums |-> GenNum, units |-> Units, eqs |-> EqNames, offsets |-> Offsets]))
 
 \* ------------------------------------------------------------ alphabets per profile
 \*  single : one step, every entry point, wide unit/value/dtype/shape alphabet
@@ -44,19 +44,24 @@ PartOk(dt, reg) == \/ Part = 0
                    \/ Part = 2 /\ reg = "default" /\ dt \notin {"f8", "i8"}
                    \/ Part = 3 /\ reg = "custom"
 \* spellings an object of the custom registry is written in / converted to: coherent SI, re-valued symbols, code units
-CustomUnit(i) == Units[i].c \in {"reval", "code"} \/ (Units[i].n = 1 /\ Units[i].c = "si")
+CustomUnit(i) == Units[i].c \in {"reval", "code", "offset"} \/ (Units[i].n = 1 /\ Units[i].c = "si")
 \* hist: one or two registry-valued spellings per dimension (re-valued symbols where the dimension has one, else the code unit)
 HistCustomUnit(i) == \/ Units[i].c = "reval"
                      \/ Units[i].c = "code" /\ ~\E j \in UI : Units[j].d = Units[i].d /\ Units[j].c = "reval"
                      \/ Units[i].d = "dimensionless" /\ Units[i].n = 1
+                     \/ IsOffset(i)
 GateOn(i) == Profile # "single" \/ PlainInit(i) \/ NarrowProbe(i) \/ (i.reg = "custom" /\ i.pi = 1 /\ i.sh = "a" /\ Units[i.u].c # "si")
+             \/ (IsOffset(i.u) /\ i.pi = 1 /\ i.sh = "a")
 SameOn(i) == Profile # "single" \/ (i.pi = 1 /\ i.dt = "f8") \/ NarrowProbe(i)
 
 InitOk(d, u, pi, dt, sh, reg) ==
-  /\ IF reg = "default" THEN Units[u].n <= NUin /\ Units[u].c # "code"
+  /\ IF reg = "default" THEN (Units[u].n <= NUin \/ IsOffset(u)) /\ Units[u].c # "code"
      ELSE /\ dt = "f8" /\ d \notin OutsideDims /\ pi \in (IF d = "velocity" THEN {1, 6} ELSE {1})
           /\ IF Profile = "hist" THEN HistCustomUnit(u) /\ sh = "a" ELSE CustomUnit(u) /\ sh \in {"a", "q"}
   /\ dt # "f8" => Units[u].c = "si"
+  \* a reading on an offset scale cannot hold, to the relative precision of its float type, an absolute temperature much
+  \* smaller than the offset: objects written in degC/degF hold the pairs whose numbers are >= 1 K
+  /\ IsOffset(u) => pi \in {1, 3, 5}
   /\ PairOk(d, pi, dt)
   /\ dt \in IntDts => \A j \in 1..NElem(sh) : IntOk(ValPairs(d)[pi][j])
   /\ d \in OutsideDims => (Units[u].n = 1 /\ pi = 1 /\ dt = "f8" /\ sh = "a")
@@ -71,12 +76,12 @@ Targets(o, eq) ==
   {tu \in UI :
      LET tb == Units[tu].d IN
      \/ /\ Covered(eq, o.d, tb)
-        /\ IF o.reg = "default" THEN Units[tu].n <= NUout /\ Units[tu].c # "code"
+        /\ IF o.reg = "default" THEN (Units[tu].n <= NUout \/ IsOffset(tu)) /\ Units[tu].c # "code"
            ELSE IF Profile = "hist" THEN HistCustomUnit(tu) ELSE CustomUnit(tu)
         /\ o.dt # "f8" => Units[o.u].c = "si"      \* narrow/integer/complex objects are only converted from coherent SI units
-     \/ /\ Uncovered(eq, o.d, tb) /\ Units[tu].n = 1 /\ GateOn(init)
+     \/ /\ Uncovered(eq, o.d, tb) /\ (Units[tu].n = 1 \/ (IsOffset(tu) /\ Profile = "single")) /\ GateOn(init)
         /\ Profile = "single" \/ (tb \in {"time", "energy"} /\ eq \in {"thermal", "lorentz"})
-     \/ /\ tb = o.d /\ tu # o.u /\ Units[tu].n <= 2 /\ SameOn(init) /\ Bytes(o.dt) >= 4
+     \/ /\ tb = o.d /\ tu # o.u /\ (Units[tu].n <= 2 \/ IsOffset(tu)) /\ SameOn(init) /\ Bytes(o.dt) >= 4
         /\ eq = "thermal"}
 \* keyword settings: all for float64/int64 single steps; the dtype dimension is crossed with the default setting only
 Kws(o, eq, tu) == IF ~Covered(eq, o.d, Units[tu].d) THEN {1}
@@ -93,7 +98,7 @@ EqIdx(eq) == CHOOSE i \in DOMAIN EqNames : EqNames[i] = eq
 TfIdx(tf) == CASE tf = "str" -> 0 [] tf = "uin" -> 1 [] tf = "udef" -> 2
 \* (a Unit object of ANOTHER registry is re-read by its expression in the array's registry - unyt's way of adopting
 \* foreign units, C13's subject - so that form is generated only for spellings that mean the same in both registries)
-TFs(en, tu) == IF init.reg = "custom" /\ Profile # "hist" THEN (IF Units[tu].c = "si" THEN TForms ELSE {"str", "uin"})
+TFs(en, tu) == IF init.reg = "custom" /\ Profile # "hist" THEN (IF Units[tu].c \in {"si", "offset"} THEN TForms ELSE {"str", "uin"})
                ELSE IF Profile = "sim" THEN {"str", "uin"}
                ELSE IF (Units[tu].n + Units[init.u].n + init.pi + EnIdx(en) + Len(hist)) % 2 = 0 THEN {"str"} ELSE {"uin"}
 Step(en, eq, k, tu, fo, tf) ==
@@ -103,7 +108,7 @@ Step(en, eq, k, tu, fo, tf) ==
       fv == IF Covered(eq, obj.d, tb) THEN FormulaVals(eq, obj.d, tb, k, obj.v) ELSE <<>> IN
   /\ out.k # "undef"
   /\ Covered(eq, obj.d, tb) => fv # <<>>
-  /\ hist' = Append(hist, [en |-> en, eq |-> eq, k |-> k, tu |-> tu, fo |-> fo, tf |-> tf, kw |-> KwRec(k), exp |-> out, cand |-> fv])
+  /\ hist' = Append(hist, [en |-> en, eq |-> eq, k |-> k, tu |-> tu, fo |-> fo, tf |-> tf, kw |-> KwRec(k), exp |-> out, cand |-> fv, so |-> IsOffset(obj.u)])
   /\ obj' = After(obj, q, out)
   /\ init' = init
 \* profile hist: every step of a history uses one equivalence (keywords free); mixed chains are left to the simulator
@@ -122,10 +127,12 @@ Spec == Init /\ [][Next]_vars
 
 ExportHist == Len(hist) = ExportLen => PrintT(ToJson([tag |-> "HIST", init |-> init, h |-> hist]))
 \* model-level: along every history the transcription agrees with the defining formula
-\* (the only refusal of a covered request in the transcription: in place on 1-byte integers)
+\* (the only refusals of a covered request in the transcription: in place on 1-byte integers; an input that is a reading
+\* on an offset scale - the library refuses arithmetic on degC/degF readings)
 ModelFormula == \A i \in DOMAIN hist : hist[i].cand # <<>> =>
                    \/ hist[i].exp.k = "ok" /\ hist[i].exp.v = hist[i].cand
                    \/ hist[i].exp.k = "raise" /\ hist[i].exp.exc = "TypeError" /\ hist[i].en \in InPlaceEntries
+                   \/ hist[i].exp.k = "raise" /\ hist[i].exp.exc = "InvalidUnitOperation" /\ hist[i].so
 
 \* ------------------------------------------------------------ the laws instance
 LInit == \E eq \in EqSet, a \in AllDims, b \in AllDims : \E c \in (IF Cardinality(EqDims(eq)) > 2 THEN EqDims(eq) \cup {a} ELSE {a}), k \in KwOk(eq) :
